@@ -24,7 +24,7 @@ func runC09(c *Ctx) {
 	r := c.R
 	sigs := []int{0, 1, 2, 3, 4, 5, 6, 7, 8, 9, 10, 11, 12}
 	crs := []int{0, 1, 2, 3, 4, 5, 6, 7, 8}
-	for i := 0; i < c.N(12, 300); i++ { // unknown codes, sampled
+	for i := 0; i < c.N(12, 100); i++ { // unknown codes, sampled
 		sigs = append(sigs, 13+r.Intn(65523))
 		crs = append(crs, 9+r.Intn(65527))
 	}
@@ -60,7 +60,7 @@ func runC09(c *Ctx) {
 	}
 	for _, s := range sigs {
 		for _, cr := range crs {
-			for rep := 0; rep < c.N(1, 4); rep++ {
+			for rep := 0; rep < c.N(1, 2); rep++ {
 				id := genIdentTypes(r, s, cr, false)
 				w := id.Encode()
 				// the type filters themselves (model: regenerated deny tables)
